@@ -23,6 +23,7 @@ import (
 	"verif/internal/keys"
 	"verif/internal/mon"
 	"verif/internal/opdrv"
+	"verif/internal/sched"
 	"verif/internal/vstore"
 )
 
@@ -45,6 +46,7 @@ type rawClaims struct {
 }
 
 func (c *rawClaims) UnmarshalJSON(b []byte) error {
+	sched.Point("callback:claims.UnmarshalJSON") // a yield point of part O (inert elsewhere)
 	c.raw = append([]byte{}, b...)
 	return json.Unmarshal(b, &c.TokenClaims)
 }
@@ -64,6 +66,7 @@ type outcome struct {
 type staticKeySet struct{ keys []jose.JSONWebKey }
 
 func (s *staticKeySet) VerifySignature(ctx context.Context, jws *jose.JSONWebSignature) ([]byte, error) {
+	sched.Point("keyset:VerifySignature") // a yield point of part O (inert elsewhere)
 	kid, alg := oidc.GetKeyIDAndAlg(jws)
 	key, err := oidc.FindMatchingKey(kid, oidc.KeyUseSignature, alg, s.keys...)
 	if err != nil {
@@ -140,6 +143,18 @@ func (t *jwksRT) set(S []ksEntry) {
 	t.mu.Unlock()
 }
 
+// setDoc publishes S together with entries no verifier can use (noise.go); without such entries it is set.
+func (t *jwksRT) setDoc(S []ksEntry, noise []placedNoise) {
+	if len(noise) == 0 {
+		t.set(S)
+		return
+	}
+	b := jwksBody(S, noise)
+	t.mu.Lock()
+	t.body = b
+	t.mu.Unlock()
+}
+
 func (t *jwksRT) hitCount() int {
 	t.mu.Lock()
 	defer t.mu.Unlock()
@@ -185,7 +200,7 @@ func newProfileVerifier(world *opdrv.World, permissive bool) *op.JWTProfileVerif
 		// the documented way to allow delegation: same storage, issuer and windows as the provider's
 		// own verifier, custom subject check
 		return op.NewJWTProfileVerifier(world.Storage, issuer, time.Hour, time.Second,
-			op.SubjectCheck(func(*oidc.JWTTokenRequest) error { return nil }))
+			op.SubjectCheck(func(*oidc.JWTTokenRequest) error { sched.Point("callback:CheckSubject"); return nil }))
 	}
 	return op.NewJWTProfileVerifier(world.Storage, issuer, time.Hour, time.Second)
 }
@@ -302,13 +317,13 @@ func (w *worker) prepare(c *caseCtx, useRaw bool, skipRemote bool) func(tok stri
 				ks = rp.NewRemoteKeySet(hc, jwksURL)
 			}
 			if c.cached != nil {
-				rt.set(c.cached)
+				rt.setDoc(c.cached, c.cachedNoise)
 				if pi := mon.Catch(func() { _, _ = ks.VerifySignature(context.Background(), w.warm()) }); pi != nil {
 					return outcome{pi: pi, note: "warm-up"}
 				}
 				time.Sleep(20 * time.Microsecond) // let the download goroutine publish its result; no verdict depends on it
 			}
-			rt.set(c.S)
+			rt.setDoc(c.S, c.noise)
 			if ver != nil {
 				return verifyRPWith(ver, tok, useRaw)
 			}
